@@ -1204,8 +1204,6 @@ func (app *App) serverErrorHandler(fctx *fasthttp.RequestCtx, err error) {
 		err = ErrRequestEntityTooLarge
 	case errors.Is(err, fasthttp.ErrGetOnly):
 		err = ErrMethodNotAllowed
-	case strings.Contains(err.Error(), "timeout"):
-		err = ErrRequestTimeout
 	default:
 		err = NewError(StatusBadRequest, err.Error())
 	}
